@@ -368,3 +368,42 @@ func ruleTelemetrySectionIsTakenKeyByKey(c *eng.Ctx) {
 	}
 	c.Check(ok, "the telemetry section is read key by key", c.P.Pos(fn.Pos()), "config.Telemetry.Enabled = v.GetBool(telemetry.enabled) and nothing else writes the switch", "parseTelemetryConfig "+why+": an explicit telemetry.enabled: false is replaced by the default (on) for some other content of the section — the opt-out is silently ignored")
 }
+
+// ruleNoEntryAtOrBelowIsMinusOne (R01.8 extension): findLastEntryIndex answers the index position of the last entry at or below
+// the offset, and -1 — not an error — when the segment has none: its caller, the reverse scanner, starts "before the first
+// entry" on -1 and reports the end of the segment; an error would end the subscription.
+func ruleNoEntryAtOrBelowIsMinusOne(c *eng.Ctx) {
+	fn := c.Fn(cl + "(*segment).findLastEntryIndex")
+	if fn == nil {
+		return
+	}
+	search := eng.Call(-1, "sort.Search")
+	ok, n, why := true, 0, ""
+	for _, r := range eng.Returns(fn) {
+		rv := eng.RetVals(r)
+		if len(rv) != 2 {
+			continue
+		}
+		if eng.NilConst(rv[1]) {
+			n++
+			v := eng.Strip(rv[0])
+			if cv, isConv := v.(*ssa.Convert); isConv {
+				v = eng.Strip(cv.X)
+			}
+			bo, isBo := v.(*ssa.BinOp)
+			if !isBo || bo.Op != token.SUB || !eng.IntConst(1)(bo.Y) || !(search(eng.Strip(bo.X)) || func() bool {
+				cv, isConv := eng.Strip(bo.X).(*ssa.Convert)
+				return isConv && search(eng.Strip(cv.X))
+			}()) {
+				ok, why = false, "a successful return is not (search position - 1)"
+			}
+			continue
+		}
+		if u, isU := eng.Strip(rv[1]).(*ssa.UnOp); isU {
+			if _, isG := u.X.(*ssa.Global); isG {
+				ok, why = false, "a package sentinel error is returned where the answer is -1"
+			}
+		}
+	}
+	c.Check(ok && n > 0, "no entry at or below the offset is answered with -1", c.P.Pos(fn.Pos()), "return int64(idx) - 1, nil for every search position, 0 included", "findLastEntryIndex: "+why+": a reverse reader that starts in a gap in front of a segment's first surviving message fails with an error instead of going on to the older segments")
+}
